@@ -78,7 +78,7 @@ deriving DecidableEq, Repr, Inhabited
 inductive FieldsSpec where
   | list (fs : List (Name × Name × Option Int))
   | reuse (n : Name)
-deriving Repr, Inhabited
+deriving DecidableEq, Repr, Inhabited
 
 inductive Item where
   | const (n : Name) (v : Val)
@@ -89,7 +89,10 @@ inductive Item where
   | struct (n : Name) (hash : Nat) (f : FieldsSpec)
   | message (n : Name) (id : Int) (hash : Nat) (f : FieldsSpec)
   | signal (n : Name) (id : Int) (hash : Nat)
-deriving Repr, Inhabited
+  /-- one id of a `_RESERVED_` block (`handle_reserve` turns each into the signal `_RESERVED_<id>`); a kind of its
+  own because the combined YAML keeps the block as one entry of `message_defs` (see `Model/Combined.lean`) -/
+  | reserved (n : Name) (id : Int) (hash : Nat)
+deriving DecidableEq, Repr, Inhabited
 
 /-! ## The registries -/
 
@@ -272,6 +275,10 @@ def elabItem (T : Tables) (autoPad : Bool) (core : Bool) (R : Reg) : Item → Ex
         .ok { R with msgIds := R.msgIds ++ [(n, id, core)],
                      msgs := R.msgs ++ [{ name := n, id := some id, hash := h, fields := fs', align := al, size := sz, core }] }
   | .signal n id h =>
+    if !idOk T R id then .error .syntax else
+    .ok { R with msgIds := R.msgIds ++ [(n, id, core)],
+                 msgs := R.msgs ++ [{ name := n, id := some id, hash := h, fields := [], align := 8, size := 0, core }] }
+  | .reserved n id h =>
     if !idOk T R id then .error .syntax else
     .ok { R with msgIds := R.msgIds ++ [(n, id, core)],
                  msgs := R.msgs ++ [{ name := n, id := some id, hash := h, fields := [], align := 8, size := 0, core }] }
